@@ -1,1 +1,60 @@
 // Kani contract harnesses for /repo/arrow-row/src/list.rs (child module: sees private items via super::)
+use super::*;
+use std::cmp::Ordering;
+
+fn lex_s(a: &[u8], b: &[u8]) -> Ordering {
+    let n = if a.len() < b.len() { a.len() } else { b.len() };
+    let mut i = 0;
+    while i < n {
+        if a[i] != b[i] { return if a[i] < b[i] { Ordering::Less } else { Ordering::Greater }; }
+        i += 1;
+    }
+    if a.len() < b.len() { Ordering::Less } else if a.len() > b.len() { Ordering::Greater } else { Ordering::Equal }
+}
+fn rev_if(o: Ordering, d: bool) -> Ordering {
+    if !d { o } else { match o { Ordering::Less => Ordering::Greater, Ordering::Greater => Ordering::Less, Ordering::Equal => Ordering::Equal } }
+}
+
+// Contract (C11): list::encode_one on already-encoded child rows (three child rows of 2 symbolic bytes each):
+// list A = child rows [0, 2), list B = child rows [2, 3):
+//  (a) the number of bytes written equals list_like_element_encoded_len(rows, range) = 1 + sum of
+//      padded_length(child row length) (the value RowConverter used to size the buffer) -- 21 and 11 here;
+//  (b) byte order of the two encodings == lexicographic order of the two LISTS of child rows (element-wise by
+//      the bytes of the child rows, a proper prefix list sorts first), reversed iff descending;
+//  (c) the empty list encodes as the 1-byte empty sentinel and sorts before any non-empty list (after, when
+//      descending); the null list as the null sentinel, placed per nulls_first; lengths both 1.
+// @unit name=list_encode_one_2_1 props=C11 kind=bounded bound=lists_of_2_and_1_child_rows_of_2_bytes fns=list::encode_one,list_like_element_encoded_len,variable::encode_one timeout=900 mem=3
+#[kani::proof]
+fn list_encode_one_2_1() {
+    let b: [u8; 6] = kani::any();
+    let rows = Rows {
+        buffer: b.to_vec(),
+        offsets: vec![0, 2, 4, 6],
+        config: crate::RowConfig { fields: std::sync::Arc::from(Vec::<crate::SortField>::new()), validate_utf8: false },
+    };
+    let opts = SortOptions { descending: kani::any(), nulls_first: kani::any() };
+    let mut oa = [0u8; 22];
+    let mut ob = [0u8; 12];
+    let na = encode_one(&mut oa, &rows, Some(0..2), opts);
+    let nb = encode_one(&mut ob, &rows, Some(2..3), opts);
+    // (a)
+    assert!(na == 21 && nb == 11 && oa[21] == 0 && ob[11] == 0);
+    assert!(list_like_element_encoded_len(&rows, Some(0..2)) == na);
+    assert!(list_like_element_encoded_len(&rows, Some(2..3)) == nb);
+    // (b)
+    let first = lex_s(&b[0..2], &b[4..6]);
+    let want_lists = if first != Ordering::Equal { first } else { Ordering::Greater }; // A has a second element, B does not
+    assert!(lex_s(&oa[..na], &ob[..nb]) == rev_if(want_lists, opts.descending));
+    // (c)
+    let mut oe = [0u8; 2];
+    let mut on = [0u8; 2];
+    assert!(encode_one(&mut oe, &rows, Some(1..1), opts) == 1 && encode_one(&mut on, &rows, None, opts) == 1);
+    assert!(list_like_element_encoded_len(&rows, Some(1..1)) == 1 && list_like_element_encoded_len(&rows, None) == 1);
+    assert!(lex_s(&oe[..1], &ob[..nb]) == rev_if(Ordering::Less, opts.descending));
+    assert!(lex_s(&on[..1], &ob[..nb]) == if opts.nulls_first { Ordering::Less } else { Ordering::Greater });
+    assert!(lex_s(&on[..1], &oe[..1]) == if opts.nulls_first { Ordering::Less } else { Ordering::Greater });
+    kani::cover!(first == Ordering::Equal && opts.descending);
+    kani::cover!(first == Ordering::Less && !opts.descending);
+    kani::cover!(first == Ordering::Greater && opts.nulls_first);
+    std::mem::forget(rows);
+}
